@@ -152,6 +152,10 @@ pub const RULES: &[Rule] = &[
         check: |o| {
             let n = distinct_mark_classes(o.get("mark_array")?)?;
             let Some(ba) = through_obj(o.get("base_array")?) else { return Some(true) };
+            // zero-sized records cannot be counted back from the data
+            if n == 0 && !ba.get("base_records")?.as_array()?.is_empty() {
+                return Some(false);
+            }
             for r in ba.get("base_records")?.as_array()? {
                 if len_of(r.get("base_anchors")?)? != n {
                     return Some(false);
@@ -166,6 +170,9 @@ pub const RULES: &[Rule] = &[
         check: |o| {
             let n = distinct_mark_classes(o.get("mark1_array")?)?;
             let Some(ba) = through_obj(o.get("mark2_array")?) else { return Some(true) };
+            if n == 0 && !ba.get("mark2_records")?.as_array()?.is_empty() {
+                return Some(false);
+            }
             for r in ba.get("mark2_records")?.as_array()? {
                 if len_of(r.get("mark2_anchors")?)? != n {
                     return Some(false);
@@ -182,6 +189,9 @@ pub const RULES: &[Rule] = &[
             let Some(la) = through_obj(o.get("ligature_array")?) else { return Some(true) };
             for att in la.get("ligature_attaches")?.as_array()? {
                 let Some(att) = through_obj(att) else { continue };
+                if n == 0 && !att.get("component_records")?.as_array()?.is_empty() {
+                    return Some(false);
+                }
                 for r in att.get("component_records")?.as_array()? {
                     if len_of(r.get("ligature_anchors")?)? != n {
                         return Some(false);
